@@ -13,6 +13,37 @@ EXPLANATION = ("presentation invariance as symmetry lemmas over the contracts: w
                "guard of the QHA hand-over on symbolic volumes with all comparison paths; end-to-end re-presentations are a bounded stand-in")
 
 
+def native_presentations():
+    """bounded fall-back of the symmetry lemmas: the real average_over_modes on concrete arrays (sizes on both sides of every size the code distinguishes) under a
+    common weight factor, a permutation of the non-Gamma q-points with their weights, and a permutation of the modes that fixes the Gamma-acoustic slots"""
+    import importlib as _il
+    from props import C01
+    ns = _il.import_module("cij.core.phonon_contribution.nonshear")
+    rnd = numpy.random.RandomState(9)
+    n = 0
+    for nq in sorted(set([1, 3, 7] + C01.size_cases())):
+        npm = 6
+        X = rnd.normal(size=(2, 2, nq, npm))
+        w = rnd.uniform(0.5, 4.0, size=nq)
+        base = numpy.asarray(ns.average_over_modes(X.copy(), w))
+        M = X.copy()
+        M[..., 0, :3] = 0
+        want = numpy.einsum("...qm,q->...", M, w) / npm / w.sum()
+        n += 1
+        if not numpy.allclose(base, want, rtol=1e-11, atol=1e-13):
+            return {"reproduced": True, "nq": nq, "what": "average_over_modes is not the weighted mean with the Gamma-acoustic slots excluded", "observed": numpy.ravel(base)[:3].tolist(),
+                    "expected": numpy.ravel(want)[:3].tolist()}
+        qp = numpy.concatenate([[0], 1 + rnd.permutation(nq - 1)]) if nq > 1 else numpy.array([0])
+        mp_ = numpy.concatenate([[0, 1, 2], 3 + rnd.permutation(npm - 3)])
+        for label, got in (("weights x 7.5", ns.average_over_modes(X.copy(), 7.5 * w)), ("non-Gamma q-points permuted", ns.average_over_modes(X[:, :, qp, :].copy(), w[qp])),
+                           ("modes permuted", ns.average_over_modes(X[:, :, :, mp_].copy(), w))):
+            n += 1
+            if not numpy.allclose(numpy.asarray(got), base, rtol=1e-10, atol=1e-13):
+                return {"reproduced": True, "nq": nq, "what": "average_over_modes changes under the re-presentation: " + label, "observed": numpy.ravel(numpy.asarray(got))[:3].tolist(),
+                        "expected": numpy.ravel(base)[:3].tolist()}
+    return {"reproduced": False, "evaluations": n, "note": "%d native evaluations incl. q-point counts %s" % (n, C01.size_cases())}
+
+
 def run(s):
     tier = s.tier
     s.trust("z3 5.1", "vf/symnp.py sum rules", "least squares is invariant under simultaneous row permutation (A-LSQ)", "QHA's own use of the weights (A-QHA)")
@@ -31,7 +62,7 @@ def run(s):
             a = ns.average_over_modes(X, env.w)
             b = ns.average_over_modes(X, env.w * Sc(lam))
             return symnp.prove_arrays_equal(b, a, env.facts + [lam > 0], tier=tier, name="average_over_modes(x, lam*w)")
-    s.oblige("C13.weight_scale_invariance", weight_scale, ["nonshear.average_over_modes"])
+    s.oblige("C13.weight_scale_invariance", weight_scale, ["nonshear.average_over_modes"], fallback=native_presentations)
 
     def gamma_first():
         """the Gamma-acoustic exclusion is positional: q index 0, modes 0..2 -- so permutations must fix them (documented in the property)"""
